@@ -272,7 +272,7 @@ Proof.
   induction imps as [|[p b] r IH]; intros a e mk H; [discriminate|].
   cbn [top_loop] in H. cbn [filter]. unfold provides at 1. cbn [fst].
   destruct (find_file G p) as [g|]; [|discriminate].
-  destruct (visit G fn fuel true [self] g) eqn:Ev; try discriminate; [|now apply (IH a e mk)].
+  destruct (visit G fn fuel true [self] g) eqn:Ev; try discriminate. now apply (IH a e mk).
 Qed.
 
 (* if import i is marked for a lookup that no other import can answer, the lookup fails without i *)
@@ -329,6 +329,9 @@ Proof.
     rewrite H1, H2. discriminate.
 Qed.
 
+Lemma option_eq_dec_N (a b : option N) : {a = b} + {a <> b}.
+Proof. decide equality. apply N.eq_dec. Qed.
+
 Lemma run_marked_changes W f i : graph_ok (w_G W) = true -> In f (w_G W) ->
   nodupN (map fst (vf_imports f)) = true -> In (i, false) (vf_imports f) ->
   forall p, unique_along W f p -> In i (marks_of (snd (run W f p))) ->
@@ -343,9 +346,145 @@ Proof.
     unfold outcome. cbn [run fst snd map ev_mode ev_name ev_res]. intros E. apply Hne. congruence.
   - assert (Ha : ask W (remove_import i f) m n = ask W f m n).
     { apply ask_remove; auto. intros b Hb. now apply (distinct_flag (vf_imports f) i b Hd Hin). }
-    assert (Hm' : In i (marks_of (snd (run W f (k (gres_of W m n (fst (ask W f m n))))))))
+    assert (Hm' : In i (marks_of (snd (run W f (k (gres_of W m n (fst (ask W f m n)))))))).
     { apply in_app_or in Hm. destruct Hm as [Hm|Hm]; [|exact Hm].
       destruct (snd (ask W f m n)) as [q|]; [|contradiction]. destruct Hm as [->|[]]. congruence. }
     specialize (IH _ Hu2 Hm'). unfold outcome in *. cbn [run fst snd map ev_mode ev_name ev_res].
     rewrite Ha. intros E. apply IH. injection E as E1 E2. now rewrite E1, E2.
 Qed.
+
+(* under the guard the warning is exact: warned iff not public and removable *)
+Theorem unused_warning_iff_removable_partial_lemma W f refs i :
+  graph_ok (w_G W) = true -> In f (w_G W) -> import_paths_distinct f ->
+  unique_providers W f refs ->
+  (warned W f refs i <-> (In (i, false) (vf_imports f) /\ removable W f refs i)).
+Proof.
+  intros HG Hf Hd Hu. split.
+  - intros Hw. split; [now apply warned_spec in Hw|].
+    now destruct (unused_warning_sound_lemma W f refs i HG Hf Hd Hw) as (_ & Hr & _).
+  - intros [Hin Hr]. apply warned_spec. split; [exact Hin|]. intros Hused.
+    apply used_in in Hused. destruct Hused as (p & Hp & Hm).
+    apply (run_marked_changes W f i HG Hf Hd Hin p (Hu p Hp) Hm). now apply Hr.
+Qed.
+
+(* without the guard only one direction holds; the exact reading of a warning is:
+   not public and no lookup of any reference is answered first through this import *)
+Theorem warned_iff_never_first_lemma W f refs i :
+  warned W f refs i <->
+  (In (i, false) (vf_imports f) /\
+   forall p, In p refs -> forall e, In e (snd (run W f p)) -> ev_mark e <> Some i).
+Proof.
+  rewrite warned_spec. split; intros [Hin H]; split; try exact Hin.
+  - intros p Hp e He Em. apply H. apply used_in. exists p. split; [exact Hp|].
+    unfold marks_of. apply in_flat_map. exists e. split; [exact He|]. rewrite Em. now left.
+  - intros Hu. apply used_in in Hu. destruct Hu as (p & Hp & Hm). unfold marks_of in Hm.
+    apply in_flat_map in Hm. destruct Hm as (e & He & Hi). apply (H p Hp e He).
+    destruct (ev_mark e) as [q|]; [|contradiction]. destruct Hi as [->|[]]. reflexivity.
+Qed.
+
+(* ------------------------------------------------------------------ the programs are go_resolve *)
+Lemma interp_bind qa qs qd p k : interp qa qs qd (bind p k) = interp qa qs qd (k (interp qa qs qd p)).
+Proof. induction p as [r|m n k' IH]; cbn [bind interp]; [reflexivity|]. apply IH. Qed.
+
+Lemma interp_rer_elem qa qs qd a b :
+  interp qa qs qd (rer_prog QElem a b) = resolve_element_relative a b qa.
+Proof.
+  unfold rer_prog, resolve_element_relative. cbn [interp].
+  destruct (qa a) eqn:E; cbn [interp]; try reflexivity;
+    (destruct (name_eqb a b); cbn [interp]; [reflexivity|]);
+    (match goal with |- context [negb ?x] => destruct x end; cbn [negb interp]; try reflexivity);
+    destruct (qa b); reflexivity.
+Qed.
+
+Lemma interp_rer_self qa qs qd a b :
+  interp qa qs qd (rer_prog QSelf a b) = resolve_element_relative a b qs.
+Proof.
+  unfold rer_prog, resolve_element_relative. cbn [interp].
+  destruct (qs a) eqn:E; cbn [interp]; try reflexivity;
+    (destruct (name_eqb a b); cbn [interp]; [reflexivity|]);
+    (match goal with |- context [negb ?x] => destruct x end; cbn [negb interp]; try reflexivity);
+    destruct (qs b); reflexivity.
+Qed.
+
+Section Interp.
+  Variable U : universe.
+  Let qa := query_all U.
+  Let qs := query_self U.
+  Variable qd : name -> gres.
+
+  Lemma interp_step prefix a b :
+    interp qa qs qd (file_scope_step_prog prefix a b) = file_scope_step U prefix a b.
+  Proof.
+    unfold file_scope_step_prog, file_scope_step. destruct (is_nil prefix); apply interp_rer_elem.
+  Qed.
+
+  Lemma interp_fsl prefixes a b skip : forall best,
+    interp qa qs qd (file_scope_loop_skip_prog prefixes a b skip best)
+    = file_scope_loop_skip U prefixes a b skip best.
+  Proof.
+    induction prefixes as [|p r IH]; intros best; cbn [file_scope_loop_skip_prog file_scope_loop_skip interp];
+      [reflexivity|].
+    rewrite interp_bind, interp_step.
+    destruct (file_scope_step U p a b) eqn:E; try apply IH;
+      (destruct (negb skip || _); [reflexivity|apply IH]).
+  Qed.
+
+  Lemma interp_scope sc a b skip :
+    interp qa qs qd (run_scope_skip_prog (f_pkg (u_self U)) sc a b skip) = run_scope_skip U sc a b skip.
+  Proof.
+    destruct sc as [|m|p]; cbn [run_scope_skip_prog run_scope_skip run_scope].
+    - apply interp_fsl.
+    - unfold message_scope. apply interp_rer_self.
+    - apply interp_step.
+  Qed.
+
+  Lemma interp_rl a nm ot scopes : forall best,
+    interp qa qs qd (resolve_loop_skip_prog (f_pkg (u_self U)) a nm ot scopes best)
+    = resolve_loop_skip U a nm ot scopes best.
+  Proof.
+    induction scopes as [|sc r IH]; intros best; cbn [resolve_loop_skip_prog resolve_loop_skip interp];
+      [reflexivity|].
+    rewrite interp_bind, interp_scope.
+    destruct (run_scope_skip U sc a nm (ot && name_eqb a nm)) eqn:E; try apply IH;
+      (destruct (negb ot || _ || _); [reflexivity|apply IH]).
+  Qed.
+
+  Lemma go_resolve_prog_is_go_resolve_lemma path nm ot :
+    interp qa qs qd (go_resolve_prog (f_pkg (u_self U)) path nm ot) = go_resolve U path nm ot.
+  Proof.
+    unfold go_resolve_prog, go_resolve, scopes_for. destruct (starts_with_dot nm); [reflexivity|].
+    apply interp_rl.
+  Qed.
+End Interp.
+
+(* ------------------------------------------------------------------ the witness of the refutation:
+   file 0 imports 1 and 2 (neither public); both publicly import 3, which declares message p.X;
+   the only reference of file 0 is a field of type p.X.  Import 1 is marked, import 2 is warned
+   about, yet the file resolves identically without import 1. *)
+Definition pX : name := [112; 46; 88]%N.
+Definition ex_W : world :=
+  mkW [mkV 0 [(1, false); (2, false)] [] []; mkV 1 [(3, true)] [] []; mkV 2 [(3, true)] [] []; mkV 3 [] [] []]%N
+      [(0, mkFile [] []); (1, mkFile [] []); (2, mkFile [] []); (3, mkFile [112]%N [(pX, KMessage)])]%N.
+Definition ex_f : vfile := (mkV 0 [(1, false); (2, false)] [] [])%N.
+Definition ex_refs : list prog := [ref_prog [] (RType [] pX)].
+
+Lemma outcome_dec (a b : gres * list (qmode * name * vres)) : {a = b} + {a <> b}.
+Proof. repeat decide equality; apply N.eq_dec. Qed.
+
+Theorem unused_warning_iff_removable_refuted_lemma :
+  exists W f refs i,
+    graph_ok (w_G W) = true /\ In f (w_G W) /\ import_paths_distinct f /\
+    In (i, false) (vf_imports f) /\ removable W f refs i /\ ~ warned W f refs i.
+Proof.
+  exists ex_W, ex_f, ex_refs, 1%N. split; [vm_compute; reflexivity|]. split; [now left|].
+  split; [vm_compute; reflexivity|]. split; [now left|]. split.
+  - intros p [<-|[]]. vm_compute. reflexivity.
+  - unfold warned. intros H. vm_compute in H. destruct H as [H|[]]. discriminate.
+Qed.
+
+Lemma unused_example :
+  warned_list ex_W ex_f ex_refs = [2%N] /\ used ex_W ex_f ex_refs = [1%N] /\
+  fst (run ex_W ex_f (ref_prog [] (RType [] pX))) = GDesc pX KMessage /\
+  fst (run ex_W (remove_import 2 ex_f) (ref_prog [] (RType [] pX))) = GDesc pX KMessage /\
+  fst (run ex_W (remove_import 1 (remove_import 2 ex_f)) (ref_prog [] (RType [] pX))) = GNil.
+Proof. repeat split; vm_compute; reflexivity. Qed.
